@@ -27,7 +27,7 @@ int vd_cmp_main(int argc, char **argv)
     hooks.malloc_fn = al_malloc; hooks.free_fn = al_free; cJSON_InitHooks(&hooks);
     vd_install_handlers();
     while ((len = getline(&line, &cap, stdin)) > 0 || (len < 0 && errno == EINTR && !feof(stdin) && (clearerr(stdin), 1))) {
-        char *copy; jv *v; cJSON *a, *b; int cs, exp, variant; char why[256] = "";
+        char *copy; jv *v; cJSON *a, *b; int cs, csv, exp, variant; char why[256] = "";
         if (len <= 0) continue;
         if (line[0] != '"') { if (VD.passthrough) fputs(line, VD.passthrough); continue; }
         copy = strdup(line); jv_reset(); v = jv_parse_line(line);
@@ -37,16 +37,21 @@ int vd_cmp_main(int argc, char **argv)
         a = vb_build(jv_at(v, 1)); b = vb_build(jv_at(v, 2)); cs = (int)jv_int(jv_at(v, 3)); exp = (int)jv_int(jv_at(v, 4));
         if (exp) eqs++;
         if (VD_TRY()) {
-            for (variant = 0; variant < 3 && !why[0]; variant++) {
+            for (variant = 0; variant < 6 && !why[0]; variant++) {
                 uint64_t ha, hb; long live = al_live; int r1, r2;
                 if (variant == 1) set_flags(a, cJSON_IsReference | cJSON_StringIsConst, 0);
                 if (variant == 2) { clear_flags(a, 0); set_flags(b, cJSON_StringIsConst, 0); if ((b->type & 0xFF) == cJSON_String) b->type |= cJSON_IsReference; }
-                ha = vb_hash(a, 0); hb = vb_hash(b, 0);
+                /* array elements that were once object members keep their old key: it is not part of the value */
+                if (variant == 3) { clear_flags(b, 0); vb_stale_keys(a, 0); vb_stale_keys(b, 1); }
+                if (variant == 4) { vb_stale_clear(a); vb_stale_clear(b); vb_stale_keys(a, 2); }
+                if (variant == 5) { vb_stale_clear(a); vb_stale_keys(a, 3); vb_stale_keys(b, 0); }
+                csv = vb_truthy(cs, (unsigned long)VD.cases + (unsigned long)variant);
+                ha = vb_hash(a, 0); hb = vb_hash(b, 0); live = al_live;
                 al_in_call = 1; al_window(0);
-                r1 = cJSON_Compare(a, b, cs); r2 = cJSON_Compare(b, a, cs);
+                r1 = cJSON_Compare(a, b, csv); r2 = cJSON_Compare(b, a, csv);
                 al_in_call = 0;
-                if ((r1 != 0) != (exp != 0)) snprintf(why, sizeof(why), "Compare(a,b,%d) = %d, expected %d (flag variant %d)", cs, r1, exp, variant);
-                else if ((r2 != 0) != (exp != 0)) snprintf(why, sizeof(why), "Compare(b,a,%d) = %d, expected %d (not symmetric; flag variant %d)", cs, r2, exp, variant);
+                if ((r1 != 0) != (exp != 0)) snprintf(why, sizeof(why), "Compare(a,b,%d) = %d, expected %d (variant %d: 1,2 ownership flags; 3-5 array elements with left-over keys)", csv, r1, exp, variant);
+                else if ((r2 != 0) != (exp != 0)) snprintf(why, sizeof(why), "Compare(b,a,%d) = %d, expected %d (not symmetric; variant %d)", csv, r2, exp, variant);
                 else if (ha != vb_hash(a, 0) || hb != vb_hash(b, 0)) snprintf(why, sizeof(why), "Compare modified an argument");
                 else if (al_live != live || al_bad_free) snprintf(why, sizeof(why), "Compare released or leaked memory of its arguments");
             }
